@@ -217,7 +217,7 @@ func (in *Interp) Run(ops []Op) {
 			in.td(op.Args[0], op.Args[1])
 		case "T*":
 			in.td(0, -in.gs.tl)
-		case "Tj":
+		case "Tj", "TJ": // TJ here is "[(string) number] TJ": the string is placed like a Tj
 			in.show(op)
 		case "'":
 			in.td(0, -in.gs.tl)
